@@ -37,10 +37,11 @@ import (
 )
 
 type caseData struct {
-	Kind string `json:"kind"` // partition | barrier
-	Seed int64  `json:"seed"`
-	N    int    `json:"n"`              // charts in this batch
-	Only int    `json:"only,omitempty"` // 1-based index of the single chart to run (replay aid)
+	Kind  string `json:"kind"` // partition | barrier
+	Seed  int64  `json:"seed"`
+	N     int    `json:"n"`               // charts in this batch
+	Large int    `json:"large,omitempty"` // barrier: additional installs with 70-200 resources
+	Only  int    `json:"only,omitempty"`  // 1-based index of the single chart to run (replay aid)
 }
 
 const minCapablePairs = 500
@@ -50,7 +51,7 @@ func init() {
 		ID:    "C08",
 		Level: "exploration",
 		Rule: "(A) seeded charts of literal YAML documents (all 38 InstallOrder kinds + unknown kinds; no/other/hook annotations with single, multiple, non-canonical and unknown events, weights, delete policies; blank and comment-only documents; separator variants '---', '--- ', '--- # comment', doubled, leading, trailing; CRLF files; partials, NOTES.txt, nested NOTES.txt, non-.yaml template files) rendered by a client-only dry-run install; " +
-			"(B) real install+uninstall of charts with 2-5 resources in each of 3-6 kinds (known and unknown) against the simulated API server with a 0-3 ms pseudo-random delay in front of every create/delete and, in half of the installs, a one-shot 409 Conflict on the first create of 1-3 resources of different kinds, under the race detector. " +
+			"(B) real install+uninstall of charts with 2-5 resources in each of 3-6 kinds (known and unknown), plus a share of large charts (70-200 resources, one kind with 66-130, an early resource of every kind answering after 250 ms) against the simulated API server with a 0-3 ms pseudo-random delay in front of every create/delete and, in half of the installs, a one-shot 409 Conflict on the first create of 1-3 resources of different kinds, under the race detector. " +
 			"distinct_nontrivial counts distinct chart shapes: (A) (#files bucket, #documents bucket, CRLF, number of separator variants used, document classes present, >12 generic documents, partial/NOTES present); (B) (#kinds, #resources, #unknown kinds).",
 		Assumptions: []string{
 			"server-side [recv,done] of a request lies inside the client-side call interval, so done(a) < recv(b) on the simulator's sequence counter is implied by a client-side barrier",
@@ -78,7 +79,11 @@ func genCases(seed int64, tier string) []core.Case {
 		out = append(out, core.Case{ID: fmt.Sprintf("part-%d", i), Data: core.J(caseData{Kind: "partition", Seed: rng.Int63(), N: perPart})})
 	}
 	for i := 0; i < nBar; i++ {
-		out = append(out, core.Case{ID: fmt.Sprintf("barrier-%d", i), Mode: "race", Data: core.J(caseData{Kind: "barrier", Seed: rng.Int63(), N: perBar})})
+		large := 0
+		if i%4 == 0 { // every 4th case adds one large install
+			large = 1
+		}
+		out = append(out, core.Case{ID: fmt.Sprintf("barrier-%d", i), Mode: "race", Data: core.J(caseData{Kind: "barrier", Seed: rng.Int63(), N: perBar, Large: large})})
 	}
 	return out
 }
@@ -105,6 +110,9 @@ func post(a *core.Agg) string {
 	}
 	if a.Stats["partition_docs_in_manifest"] == 0 || a.Stats["partition_docs_in_hooks"] == 0 || a.Stats["partition_docs_dropped_unknown_event"] == 0 {
 		return "partition monitor saw no manifest / hook / unknown-event documents"
+	}
+	if a.Stats["barrier_large_installs_over_64_resources"] == 0 {
+		return "no install with more than 64 resources in one Create call"
 	}
 	if a.Stats["creates_answered_409_conflict_and_resent"] == 0 {
 		return "no create was answered with the injected 409 Conflict (retry inside the batch unobserved)"
